@@ -46,6 +46,22 @@ pub fn ty_heads(t: &syn::Type) -> (String, String) {
     (h1, h2)
 }
 
+/// every type path occurring in a type, without generic arguments
+pub fn ty_paths(t: &syn::Type) -> Vec<String> {
+    struct V(Vec<String>);
+    impl<'ast> syn::visit::Visit<'ast> for V {
+        fn visit_type_path(&mut self, p: &'ast syn::TypePath) {
+            let lead = if p.path.leading_colon.is_some() { "::" } else { "" };
+            let segs: Vec<String> = p.path.segments.iter().map(|s| s.ident.to_string()).collect();
+            self.0.push(format!("{}{}", lead, segs.join("::")));
+            syn::visit::visit_type_path(self, p);
+        }
+    }
+    let mut v = V(vec![]);
+    syn::visit::Visit::visit_type(&mut v, t);
+    v.0
+}
+
 fn vis(v: &syn::Visibility) -> &'static str {
     match v {
         syn::Visibility::Public(_) => "pub",
@@ -126,6 +142,7 @@ fn fields(fs: &syn::Fields) -> (String, Vec<Value>) {
                         "wire": wire,
                         "head": h1,
                         "head2": h2,
+                        "paths": ty_paths(&f.ty),
                         "ty": norm_ty(&f.ty),
                         "vis": vis(&f.vis),
                         "serde": serde,
@@ -149,6 +166,7 @@ fn fields(fs: &syn::Fields) -> (String, Vec<Value>) {
                         "wire": i.to_string(),
                         "head": h1,
                         "head2": h2,
+                        "paths": ty_paths(&f.ty),
                         "ty": norm_ty(&f.ty),
                         "vis": vis(&f.vis),
                         "serde": serde,
